@@ -19,7 +19,7 @@ Print Assumptions C02_online.
 Theorem C02_online_offline :
   forall (VS : Val) (AR : Arith VS) (pk : formula -> formula -> pkind)
          (w : trace) (n : nat) (p : formula),
-    1 <= n -> past_only p = true -> wf_bounds p = true -> no_precedes p = true -> wf_trace p w n ->
+    1 <= n -> past_only p = true -> wf_bounds p = true -> wf_trace p w n ->
     snd (mon_run AR pk [p] dict_init w 0 n) = eval_off AR pk p w n.
 Proof. exact @online_offline. Qed.
 Print Assumptions C02_online_offline.
